@@ -106,8 +106,16 @@ def _cds_events(args):
                                                                         rnd.random() < 0.5)]:
             # (the table is an IntEnum: named by its NCBI number half the time, which is the same table)
             tsel = tables[tb] if rnd.random() < 0.5 else int(tables[tb])
-            trs.append([tr, tb, strict, E.outcome(lambda tr=tr, tsel=tsel, strict=strict: list(str(cds.translate(
-                truncate_at_in_frame_stop=tr, translation_table=tsel, strict=strict))))])
+            # (documented defaults -- no truncation, the default table, strict -- are left out half of the time)
+            tkw = dict(truncate_at_in_frame_stop=tr, translation_table=tsel, strict=strict)
+            if rnd.random() < 0.5:
+                if not tr:
+                    tkw.pop("truncate_at_in_frame_stop")
+                if tb == 0:
+                    tkw.pop("translation_table")
+                if strict:
+                    tkw.pop("strict")
+            trs.append([tr, tb, strict, E.outcome(lambda tkw=tkw: list(str(cds.translate(**tkw))))])
         # the same translations asked of a TRANSCRIPT whose exons are the CDS blocks (get_protein_sequence hands its
         # arguments on to the coding sequence)
         if not overl:
